@@ -72,6 +72,8 @@ pub struct ExploreResult {
     /// exploration: (root, full history, key), deduplicated, deterministic order
     pub novel: Vec<(usize, Vec<Op>, Vec<u8>)>,
     pub fault_states: u64,
+    /// occurrences of recorded known findings: rule -> (count, first example)
+    pub known: std::collections::BTreeMap<&'static str, (u64, VRec)>,
 }
 
 struct WorkOut {
@@ -150,7 +152,7 @@ impl<'a> Explorer<'a> {
                     out.machinery = Some(format!("{m} (history {:?}, op {:?})", hist, op));
                     return out;
                 }
-                let violated = !t.viol.is_empty();
+                let violated = t.viol.iter().any(|x| !self.ctx.known_rules.iter().any(|k| k == x.rule));
                 for x in t.viol {
                     out.viol.push(VRec { props: x.props, rule: x.rule, detail: x.detail, root, hist: hist.clone(), op: Some(op), mode: "transition" });
                 }
@@ -180,6 +182,7 @@ impl<'a> Explorer<'a> {
             wall_s: 0.0,
             novel: vec![],
             fault_states: 0,
+            known: Default::default(),
         };
         let mut pending_novel: Vec<(usize, Vec<Op>, Vec<u8>)> = vec![];
         // roots
@@ -221,7 +224,10 @@ impl<'a> Explorer<'a> {
                     break;
                 }
                 for x in out.viol {
-                    if res.violations.len() < opts.max_violations {
+                    if self.ctx.known_rules.iter().any(|k| k == x.rule) {
+                        let e = res.known.entry(x.rule).or_insert((0, x.clone()));
+                        e.0 += 1;
+                    } else if res.violations.len() < opts.max_violations {
                         res.violations.push(x);
                     }
                 }
